@@ -655,6 +655,21 @@ def _items(tree, body, rel, config, depth) -> list:
             out.extend(_items(tree, n.body, rel, config, depth))
         elif t is nodes.Macro:
             continue        # expanded at its call sites
+        elif t is nodes.With and all(isinstance(x, nodes.Name) for x in n.targets) and len(n.targets) == len(n.values):
+            # `{% with a = E, b = F %} body {% endwith %}`: the body with a, b standing for E, F (evaluated in the enclosing scope); the
+            # names do not exist outside the block, so nothing is bound for what follows
+            inner = dict(config)
+            for x in n.targets:
+                inner.pop(x.name, None)
+            body_items = _items(tree, n.body, rel, inner, depth)
+            env = {x.name: jx(v_) for x, v_ in zip(n.targets, n.values)}
+            used = set(env) | {nm for v_ in env.values() for nm in names_of(v_)}
+            # (a value that reads `loop` means the enclosing loop: it cannot be carried into a loop nested in the body)
+            if any(_binds(body_items, nm) for nm in used) or ("loop" in used and any(it[0] == "for" for it, _ in walk_items(body_items))):
+                out.append(("other", t.__name__, n.lineno, rel))
+                out.extend(body_items)
+            else:
+                out.extend(subst_items(body_items, env))
         elif t in (nodes.CallBlock, nodes.FilterBlock, nodes.With, nodes.Scope):
             out.append(("other", t.__name__, n.lineno, rel))
             body2 = getattr(n, "body", None)
